@@ -5811,7 +5811,8 @@ sdef.is_pub = item->as.struct_def.is_pub;            /* Propagate public visibil
 
             /* Verify function has shadow test (skip for extern functions, main, and functions that use extern functions) */
             Function *func = env_get_function(env, item->as.function.name);
-            if (!env->suppress_shadow_warnings &&
+            /* func is NULL when the definition itself was refused (e.g. it redefines a built-in) */
+            if (func && !env->suppress_shadow_warnings &&
                 !func->is_extern && !func->shadow_test &&
                 strcmp(item->as.function.name, "main") != 0) {
                 /* Check if function body uses extern functions - if so, shadow test is optional */
@@ -6496,7 +6497,8 @@ sdef.is_pub = item->as.struct_def.is_pub;            /* Propagate public visibil
 
             /* Verify function has shadow test (skip for extern functions, main, and functions that use extern functions) */
             Function *func = env_get_function(env, item->as.function.name);
-            if (!env->suppress_shadow_warnings &&
+            /* func is NULL when the definition itself was refused (e.g. it redefines a built-in) */
+            if (func && !env->suppress_shadow_warnings &&
                 !func->is_extern && !func->shadow_test &&
                 strcmp(item->as.function.name, "main") != 0) {
                 /* Check if function body uses extern functions - if so, shadow test is optional */
